@@ -105,6 +105,9 @@ const (
 	ECallStarter   // a call whose closure spawns a goroutine was made (flusher starter)
 	ECallWriteObj  // a call of the object-write family (closure writes an object file) was made
 	EIsCorruptedQ  // errors.Is(err, ErrIndexCorrupted) was evaluated
+	ECloseFile     // (*os.File).Close
+	ECloseIface    // Close invoked on an io.Closer / io.WriteCloser value
+	EGzipWriter    // a gzip writer was created
 	EUnrenamed     // a persistent file was opened for writing and no rename followed yet (set by FS.write(object|schema), cleared by FS.rename)
 	// pseudo effects, only used in call-graph closures
 	EAccessG // touches a field of a struct type declared in sod
@@ -123,7 +126,7 @@ var effNames = [...]string{
 	"ok(Validate)", "ok(UNIQ.check)", "ok(ACCEPT)", "ok(SCHEMA.get)", "ok(OBJ.read)", "ok(COMPAT)", "ok(STRUCT)", "ok(SERIALISE)", "ok(UNIQ.check live)", "ok(UNIQ.check temp)", "ok(ACCEPT temp)",
 	"ERR(ConstraintUnique)", "ERR(InvalidObject)", "ERR(IndexCorrupted)", "ERR(StructureChanged)", "ERR(FieldDescModif)", "ERR(ExtensionMismatch)", "ERR(WrongObjectType)",
 	"ERR(UnkownSearchOperator)", "ERR(Casting)", "ERR(UnkownField)", "ERR(UnknownKeyType)", "ERR(NoObjectFound)", "ERR(FieldNotIndexed)", "ERR(other)",
-	"CANON", "DIRTY", "CALL.del(cache)", "CALL.del(pending)", "CALL.unindex(live)", "CALL.flush(pending)", "CALL.commit", "CALL.get(cache)", "CALL.starter", "CALL.writeObject", "errors.Is(corrupted)?", "UNRENAMED", "ACCESS", "LOCKOP",
+	"CANON", "DIRTY", "CALL.del(cache)", "CALL.del(pending)", "CALL.unindex(live)", "CALL.flush(pending)", "CALL.commit", "CALL.get(cache)", "CALL.starter", "CALL.writeObject", "errors.Is(corrupted)?", "CLOSE(file)", "CLOSE(iface)", "GZIP.writer", "UNRENAMED", "ACCESS", "LOCKOP",
 }
 
 func (e Eff) String() string {
